@@ -75,7 +75,6 @@ theorem C33_v2_quorum (c : Cfg) (l : Ledger) (height : Nat) (t : Tx) (hv : t.pve
     threshold c height ≤ t.signers.length ∧
     (∀ i ∈ t.signers, i < l.cross.length) ∧
     (height ≥ c.restriction → t.signers.Nodup) ∧
-    keySum l.cross t.signers ≠ 0 ∧
     ∀ p ∈ t.progs, p.schnorr = true ∧ p.schnorrKey = keySum l.cross t.signers := by
   unfold specialCheck at h
   split at h
@@ -95,21 +94,18 @@ theorem C33_v2_quorum (c : Cfg) (l : Ledger) (height : Nat) (t : Tx) (hv : t.pve
         · rename_i sum hagg
           obtain ⟨g1, g2, g3⟩ := aggregate_ok hagg
           simp only [Nat.zero_add] at g3
-          split at h
-          · cases h
-          · rename_i hsum
-            refine ⟨by omega, g1, ?_, by rw [← g3]; exact hsum, ?_⟩
-            · intro hr
-              exact (g2 (by simp [hr])).1
-            · intro p hp
-              have := firstErr_none h p hp
+          refine ⟨by omega, g1, ?_, ?_⟩
+          · intro hr
+            exact (g2 (by simp [hr])).1
+          · intro p hp
+            have := firstErr_none h p hp
+            split at this
+            · rename_i hs
               split at this
-              · rename_i hs
-                split at this
-                · cases this
-                · rename_i hk
-                  exact ⟨hs, by rw [← g3]; simpa using hk⟩
               · cases this
+              · rename_i hk
+                exact ⟨hs, by rw [← g3]; simpa using hk⟩
+            · cases this
 
 /-- a concrete accepted V2 withdrawal: 3 arbiters with keys 5, 7, 11, signers `[0, 2]`, threshold 2 -/
 example : specialCheck ⟨100, 10, 20, 30, 2, 2, 2⟩ ⟨[], [], [⟨5, true⟩, ⟨7, true⟩, ⟨11, true⟩], 3, 1, [99]⟩ 50
